@@ -353,6 +353,8 @@ impl Compiler {
         for stmt in stmt.statements {
             self.compile_statement(stmt)?;
         }
+        let depth = self.scopes[self.scope_index].scope_depth;
+        self.symtab.end_block(depth);
         self.scopes[self.scope_index].scope_depth -= 1;
         Ok(())
     }
